@@ -2,6 +2,7 @@ CONSTANT Rep = {"a", "b", "c"}
 CONSTANT MaxSteps = 1000000
 CONSTANT Resolutions = {"RemoteWins", "LocalWins", "Merge"}
 CONSTANT EditCap = 99
+CONSTANT Editors = {"a", "b", "c"}
 CONSTANT Directed = FALSE
 CONSTANT RepOrder <- TNoOrder
 SPECIFICATION PSpec
